@@ -2,13 +2,15 @@ import Chrono.Drv.Util
 import Chrono.Drv.Date
 import Chrono.Model.IsoWeekOrd
 import Chrono.Model.DateViews
+import Chrono.Spec.IsoSpec
 namespace Chrono.Drv.DateIso
 open Chrono Chrono.M Chrono.Drv
 
-/-- the packed `IsoWeek` of a date and its three views: `ywf year week week0` -/
+/-- the packed `IsoWeek` of a date and its three views: `ywf year week week0` (`week0` with its `u32`
+subtraction: `panic` when the week field is 0) -/
 def showIso (d : M.Date) : String :=
   match d.iso_week with
-  | .ok w => s!"{w} {IsoWeek.year w} {IsoWeek.week w} {IsoWeek.week0 w}"
+  | .ok w => s!"{w} {IsoWeek.year w} {IsoWeek.week w} {showRes toString (IsoWeek.week0r w)}"
   | .panic => "panic"
 
 /-- digest step of one year: for every existing day, the packed ISO week with its three views, the
@@ -19,7 +21,8 @@ def isoDigestYear (st : UInt64 × Option M.Date) (y : Int) : UInt64 × Option M.
     | .ok (some d) =>
       let h := st.1
       let h := match d.iso_week with
-        | .ok w => [w, IsoWeek.year w, IsoWeek.week w, IsoWeek.week0 w].foldl Drv.Date.mix64 h
+        | .ok w => [w, IsoWeek.year w, IsoWeek.week w,
+            (match IsoWeek.week0r w with | .ok v => (v : Int) | .panic => -2)].foldl Drv.Date.mix64 h
         | .panic => Drv.Date.mix64 h (-2)
       let h := [d.month0, d.day0, d.ordinal0].foldl (fun h (r : Res Nat) =>
         match r with | .ok v => Drv.Date.mix64 h v | .panic => Drv.Date.mix64 h (-2)) h
@@ -35,6 +38,36 @@ def blockIso (y0 y1 : Int) : UInt64 :=
   ((List.range n).foldl (fun st (i : Nat) => isoDigestYear st (y0 + (i : Int)))
     ((14695981039346656037 : UInt64), (none : Option M.Date))).1
 
+/-! ### the ISO SPECIFICATION (Spec/IsoSpec.lean, `isoThursday` of Spec/Calendar.lean) — not the model —
+for validation against references that share no code with chrono (tools/validate_calendar_spec.py) -/
+
+/-- the calendar year `Y` with `daysBeforeYear Y < n ≤ daysBeforeYear (Y + 1)`: a first guess from the
+mean year length, then stepped (the guess is off by at most one; the fuel is generous) -/
+def specYearOf (n : Int) : Int :=
+  let rec go (fuel : Nat) (y : Int) : Int :=
+    match fuel with
+    | 0 => y
+    | fuel + 1 =>
+      if n ≤ Spec.daysBeforeYear y then go fuel (y - 1)
+      else if Spec.daysBeforeYear (y + 1) < n then go fuel (y + 1)
+      else y
+  go 8 (n * 400 / 146097 + 1)
+
+/-- `spec.iso n`: ISO year, week, weekday (Monday = 0) of day number `n` by the Thursday rule, then the
+way back through the constructor-side specification: `isoDayNum`, `isoWeekExists`, `isoWeeksInYear` -/
+def specIso (n : Int) : String :=
+  let thu := Spec.isoThursday n
+  let Y := specYearOf thu
+  let ot := thu - Spec.daysBeforeYear Y
+  let w := (ot - 1) / 7 + 1
+  let wd := Spec.weekdayOf n
+  s!"{Y} {w} {wd} {Spec.isoDayNum Y w wd} {showBool (decide (Spec.isoWeekExists Y w))} {Spec.isoWeeksInYear Y}"
+
+/-- `spec.isoday y w wd`: the day number the ISO week date denotes, whether ISO year `y` has week `w`,
+and the number of ISO weeks of `y` -/
+def specIsoDay (y w wd : Int) : String :=
+  s!"{Spec.isoDayNum y w wd} {showBool (decide (Spec.isoWeekExists y w))} {Spec.isoWeeksInYear y}"
+
 def handle (op : String) (args : List String) : Option String :=
   match op, args with
   | "di.isoweek", [yof] => some ((int? yof).elim bad (fun v => showIso ⟨v⟩))
@@ -47,6 +80,9 @@ def handle (op : String) (args : List String) : Option String :=
       joinSp [showRes toString d.month0, showRes toString d.day0, showRes toString d.ordinal0]))
   | "di.blockiso", [y0, y1] => some (match int? y0, int? y1 with
       | some y0, some y1 => toString (blockIso y0 y1) | _, _ => bad)
+  | "spec.iso", [n] => some ((int? n).elim bad specIso)
+  | "spec.isoday", [y, w, wd] => some (match int? y, int? w, int? wd with
+      | some y, some w, some wd => specIsoDay y w wd | _, _, _ => bad)
   | _, _ => none
 
 end Chrono.Drv.DateIso
